@@ -111,3 +111,39 @@ Theorem C05_restore_is_source : forall s pb mb buf, pa_res (snd (write_tables s)
   mout_of_part (snd (write_tables s)) = mk_mout (terr_res e) n (groups_of w).
 Proof. exact write_tables_of_generated. Qed.
 Print Assumptions C05_restore_is_source.
+
+(* ---- the packetisation is the source ----
+   Where WriteData takes the continuity counter (ctx.cc.get() for the packet literal, ctx.cc.inc() only in the branch that
+   writes payload) is read off muxer.go on every run: go/gen (writegen.go) translates the packetisation loop into
+   Gen/WriteGen.v (Muxer_WriteData_rest; the context the map points to is threaded as a value and stored back), and for
+   every state and argument on which the model's write_data does not panic the translated prefix of Gen/MuxGen.v applied
+   to it returns the model's result, count and Write calls and leaves every stream's counter - and the two table
+   counters - as the model does.  An edit of the loop (the counter taken once per call, incremented for a packet without
+   payload, ...) regenerates Gen/WriteGen.v and this theorem (Proofs/WriteGenMux.v) stops checking. *)
+Require Import Gen.WriteGen Proofs.WriteGenBase Proofs.WriteGenMux.
+Theorem C05_write_data_is_source : forall s d pb mb buf,
+  pa_res (snd (write_data s d)) <> Panic ->
+  exists s',
+    Muxer_WriteData_until_loop calc_descriptor_length calc_pmt_section_length g_write ge_get to_pat g_wpsi g_wpkt
+      (wd_ret_src s) (wd_rest_src s)
+      (@nil (list Z)) C_MpegTsPacketSize (ms_period s) mux_pm (ms_pm_updated s) (pmt_of s) (ms_pmt_updated s)
+      (ms_pat_version s) (ms_pmt_version s) (ms_pat_cc s) (ms_pmt_cc s) pb mb buf (ms_es s) (ms_retransmit s) d
+    = Some (s', flat_of (snd (write_data s d))) /\
+    (forall pid, option_map ec_cc (es_find pid (ms_es s')) = option_map ec_cc (es_find pid (ms_es (fst (write_data s d))))) /\
+    ms_pat_cc s' = ms_pat_cc (fst (write_data s d)) /\ ms_pmt_cc s' = ms_pmt_cc (fst (write_data s d)).
+Proof. exact write_data_counters_are_source. Qed.
+Print Assumptions C05_write_data_is_source.
+(* the translated WriteData runs: 400 payload bytes behind an adaptation field are three payload packets, the stream's
+   counter goes from its initial 16 to 2 (16 -> 0, 1, 2: the writer keeps the low four bits) *)
+Example C05_write_data_is_source_inhabited :
+  let s := fst (mux_run_parts (new_muxer 2) [MAdd (ex_es 257); MSetPCR 257]) in
+  let d := ex_data 257 (Some ex_af) 400 in
+  exists s',
+    Muxer_WriteData_until_loop calc_descriptor_length calc_pmt_section_length g_write ge_get to_pat g_wpsi g_wpkt
+      (wd_ret_src s) (wd_rest_src s)
+      (@nil (list Z)) C_MpegTsPacketSize (ms_period s) mux_pm (ms_pm_updated s) (pmt_of s) (ms_pmt_updated s)
+      (ms_pat_version s) (ms_pmt_version s) (ms_pat_cc s) (ms_pmt_cc s) [] [] [] (ms_es s) (ms_retransmit s) d
+    = Some (s', flat_of (snd (write_data s d))) /\
+    option_map (fun c => wrappingCounter_get (ec_cc c)) (es_find 257 (ms_es s)) = Some 16 /\
+    option_map (fun c => wrappingCounter_get (ec_cc c)) (es_find 257 (ms_es s')) = Some 2.
+Proof. eexists. split; [vm_compute; reflexivity|]. split; vm_compute; reflexivity. Qed.
